@@ -162,7 +162,11 @@ let drv_main () =
     | "m_real" :: l ->
         real := List.map (fun kv -> match String.split_on_char '=' kv with
                                     | [a; b] -> (str_tok a, str_tok b) | _ -> failwith "m_real") l
-    | "m_mounted" :: l -> mounted := List.map str_tok l
+    | "m_mounted" :: l ->
+        (* the mount table as the kernel writes it (MountParse.render_mounts), read back by the model of load_mountinfo *)
+        mounted := parse_mounts (render_mounts (List.map (fun t -> { m_dev = chars_of_string "dev"; m_dir = str_tok t; m_rest = chars_of_string "type rw 0 0" }) l))
+    | ["m_mounts_raw"; t] -> mounted := parse_mounts (str_tok t)
+    | ["m_mounts_raw"] -> mounted := parse_mounts []
     | ["m_flags"; a; b; c; d; e] -> fan := b_ a; minfo := b_ b; mount_ok := b_ c; markfail := int_of_string d; load := b_ e
     | ["m_stat"; o; u; g] -> stat := (if o = "ok" then Some (n_of_string u, n_of_string g) else None)
     | ["m_cred"; u; g; n; a; b; c] ->
